@@ -42,7 +42,7 @@ else:
     # Self-test mode: run the same checks against a scratch copy/worktree of kaj/rsass
     # (VERIF_REPO=/tmp/wt ./check Cxx).  Uses its own harness copy, target dir, evidence
     # and replay directories so that the registered checks against /repo are not disturbed.
-    _tag = hashlib.sha1(REPO.encode()).hexdigest()[:8]
+    _tag = os.path.basename(REPO) + "-" + hashlib.sha1(REPO.encode()).hexdigest()[:8]
     OUT = os.path.join(CACHE, "alt-" + _tag)
     HARNESS_DIR = os.path.join(OUT, "harness")
     HARNESS_BIN = os.path.join(OUT, "target", "debug", "rsass-verif")
